@@ -116,7 +116,7 @@ def inputs_of(leafvals, nsbad, ztop, zsub):
 # OutOK and ReportedOK fail in TLC on the operational model, which the library follows).  The output-side twin of the input defect
 # NONE_FOR_NAMESPACE.  Switch on when the library is repaired (out() rejects None for a namespace, or does not store it) or the
 # behaviour becomes a listed finding with a deviation clause.  None for a leaf port or an undeclared name stays in the universe.
-NONE_OUTPUT_FOR_NAMESPACE = False
+NONE_OUTPUT_FOR_NAMESPACE = True       # (repaired in /repo: out() rejects None for a declared namespace)
 
 
 def work_of(depth, outvals, maxcalls, two_process=True, unsuccessful='short'):
